@@ -22,7 +22,7 @@ CLAIMS = {
             TB + "Arbitrary accepted call sequences that are not the serialisation of a tree prefix (e.g. abandoned open containers) are covered by C03's grammar theorems and the correspondence, not by the decode theorem.",
             "Lean 4 theorems over a hand-written model + differential correspondence (line protocol)", "§4 C02"),
     "C03": ("Refinement of the write state machine (transcription of state.rs: interleaved key/value counter, parent slot claimed before push, parent stack) to a grammar zipper (Spec/Grammar.lean: path of open containers with completed pairs / waiting key / items, statuses as documented in api/README.md). "
-            "Theorems: C03_call_answered_by_grammar (in EVERY reachable state, any nesting depth and fill level, each of the operations gets exactly the grammar's status and the state afterwards stands for the grammar's document), C03_history_answered_by_grammar (every finite call sequence, continuing after errors and after completion), "
+            "C03_state_machine_is_the_source_text: every method of state.rs is translated on every run by extract/rs2lean.py (symbolic execution of the Rust bodies, early returns, `*self = ..`, payload counters, swap_and_push, pop().unwrap_or(End)) into Gen/FnsState.lean and proved equal to the model, so the theorems are re-checked against what the source says now. Theorems: C03_call_answered_by_grammar (in EVERY reachable state, any nesting depth and fill level, each of the operations gets exactly the grammar's status and the state afterwards stands for the grammar's document), C03_history_answered_by_grammar (every finite call sequence, continuing after errors and after completion), "
             "C03_complete_iff_root_closed (finalisation succeeds iff the grammar's document is complete), C03_complete_is_final, C03_reject_noop (a rejected call leaves output bytes, position and parent stack unchanged, for every state and operation). "
             "Tie: status of every call, output snapshot and finalisation compared with the real crates on random long sequences, all sequences up to length 4 over a 14-letter alphabet, and 32-bit lengths (2^31, 2^32-1) under miri/i686.",
             TB + "miri (32-bit runs). The model uses unbounded naturals for the counters; the 32-bit wrap-around of the key/value counter (F1) is covered by the miri runs, not by the theorem.", "Lean 4 refinement theorem + differential correspondence + exhaustive short sequences", "§4 C03"),
@@ -34,11 +34,11 @@ CLAIMS = {
             "Lean 4 symbolic execution of regenerated glue code + kernel-decided shape check + differential execution in wasmtime", "§4 C04"),
     "C05": ("Theorem C05_read_is_tail, for every capacity > 0 and instantiated at the extracted 1001: after any sequence of messages of any lengths the two read segments, concatenated, are exactly the last min(total, capacity) bytes logged, in order "
             "(step theorem read(log l m) = lastN cap (read l ++ m) under a ring invariant, lifted by induction over histories; every prefix is a history, so it holds at every read point). C05_plan_sound: every plan covers exactly the retained tail, lies inside the buffer, segments disjoint. "
-            "Plans (as offsets) and read-back segments compared with the real ring after every message, split request/copy forms included.",
+            "C05_model_is_the_source_text: Logs::append and Logs::read_ptrs are translated from provider/src/log.rs on every run (rs2lean: mutable locals, early-assigned segments, pointer offsets) and proved equal to the model. Plans (as offsets) and read-back segments compared with the real ring after every message, split request/copy forms included.",
             TB + "A trap inside the cross-memory copy itself (guest passes an out-of-bounds source) is outside the stated quantifier and not modelled.",
             "Lean 4 invariant + refinement to 'last N bytes' by induction over histories + differential correspondence", "§4 C05"),
     "C06": ("Theorems over the regenerated constants: documented 32-bit layout, 64-bit layout, saturation at exactly 2^14-1 on both widths, totality of unboxing (never a crash), tag table; "
-            "the constants are re-translated from core/src/read.rs on every run; box/unbox compared with the real crate on all boundary lengths x pointers, decision-relevant prefix/tag patterns, random doubles and raw patterns.",
+            "the constants AND the bodies of NanBox::encode / NanBox::number are re-translated from core/src/read.rs on every run (C06_model_is_the_source_text proves the model functions equal to the regenerated ones); box/unbox compared with the real crate on all boundary lengths x pointers, decision-relevant prefix/tag patterns, random doubles and raw patterns.",
             TB, "Lean 4 theorems over translated constants (decide +kernel) + differential correspondence", "§4 C06"),
     "C07": ("Theorems over a model of TrampolineCodegen::new/apply (Model/Tramp.lean: stepOne per IMPORTS entry, every occurrence of an import handled) driven by the tables regenerated from trampoline/src/lib.rs: no own memory => returned unchanged; more than one own memory, an unknown API-namespace name, another API version => rejected; "
             "C07_reject_bad_signature (a string-carrying function import whose signature is not the expected one is rejected wherever it stands, whatever else is imported, also as a second import of the same name); C07_idempotent (the import section the tool produces is accepted and left exactly as it is by a second application — uses table facts discharged by the kernel on the regenerated tables: no new name is an original name, helper names are known and never original names); "
